@@ -4,6 +4,7 @@
 package fdo
 
 import (
+	"crypto"
 	"crypto/hmac"
 	"crypto/sha256"
 	"crypto/sha512"
@@ -52,6 +53,16 @@ func hmacHash(h hash.Hash, v any) (protocol.Hmac, error) {
 // hmacVerify encodes the given value to CBOR and verifies that the given HMAC
 // matches it. If the cryptographic portion of verification fails, then
 // ErrCryptoVerifyFailed is wrapped.
+// hashFor returns the hash function for an algorithm identifier received from
+// a peer, or an error if the identifier is unknown (HashAlg.HashFunc panics).
+func hashFor(alg protocol.HashAlg) (crypto.Hash, error) {
+	switch alg {
+	case protocol.Sha256Hash, protocol.HmacSha256Hash, protocol.Sha384Hash, protocol.HmacSha384Hash:
+		return alg.HashFunc(), nil
+	}
+	return 0, fmt.Errorf("unsupported hash algorithm: %d", int64(alg))
+}
+
 func hmacVerify(h256, h384 hash.Hash, h1 protocol.Hmac, v any) error {
 	if h256 == nil {
 		panic("HMAC-SHA256 support is required")
